@@ -351,7 +351,7 @@ pub fn instance(sc: &Value, r: &mut StdRng) -> Value {
     if nonfinite_j6 {
         let bad = [f64::NAN, f64::INFINITY, f64::NEG_INFINITY][r.gen_range(0..3)];
         j6 = bad;
-        if prev_class != "centered" { prev[5] = bad; }
+        if prev_class != "centered" { prev[5] = bad; prev_in_range = false; }
     }
     // calls
     let ans = call(robot.kin.as_ref(), entry, &pose, &prev, j6);
